@@ -23,6 +23,8 @@ CONSTANTS
   AttrVals,   \* set of [val, dom, nul] token records offered by AddAttribute
   MaxCtc, CtcDepth, CtcBinOps,
   CtcMinFeatures,
+  CtcSameName,  \* BOOLEAN: every constraint is called "c1" (readers that name constraints after their text do this)
+  CtcGrow,    \* walks only: how many times the last constraint may be grown one level deeper
   CtcArith,   \* BOOLEAN: also comparison / arithmetic / aggregate constraints
   Fmt,        \* "" or a format: emit only models inside that format's fragment
   MaxLevel,   \* bound on behaviour length (safety net)
@@ -76,12 +78,20 @@ AddAttribute(i, k, v) ==
 AddConstraint(t) ==
   /\ "ctc" \in Axes /\ Len(model.ctcs) < MaxCtc
   /\ stage <= 5 /\ stage' = 5 /\ pos' = 0
-  /\ LET n == "c" \o ToString(Len(model.ctcs) + 1)
+  /\ LET n == IF CtcSameName THEN "c1" ELSE "c" \o ToString(Len(model.ctcs) + 1)
      IN  /\ model' = AddConstraintF(model, n, t)
          /\ hist'  = Append(hist, [a |-> "AddConstraint", n |-> n, ast |-> t])
 
 \* constraints are added only to models with at least CtcMinFeatures features
 CtcReady == Len(model.feats) >= CtcMinFeatures
+
+\* Constraint.ast = ... (the public setter): the last constraint becomes a deeper tree
+ReplaceConstraint(t) ==
+  /\ "ctc" \in Axes /\ model.ctcs # <<>> /\ stage = 5
+  /\ LET k == Len(model.ctcs)
+     IN  /\ model' = [model EXCEPT !.ctcs[k].ast = t]
+         /\ hist'  = Append(hist, [a |-> "ReplaceConstraint", n |-> model.ctcs[k].name, ast |-> t])
+  /\ stage' = 5 /\ pos' = pos + 1
 
 Step ==
   \/ \E o \in 1..N, k \in 1..MaxKids : \E c \in CardChoices(k) : AddRelation(o, k, c[1], c[2])
@@ -106,12 +116,13 @@ Mix(x, y) == ((x % HM) * 263 + (y % HM) * 71 + 12345) % HM
 Hash(salt) == Mix(Mix(Mix(Mix(Seed, walk), TLCGet("level")), salt), Len(hist) * 7 + NF)
 PickS(S, salt) == LET q == SetToSeq(S) IN q[(Hash(salt) % Len(q)) + 1]
 AttrCodes == {c \in (1..NF) \X DOMAIN AttrNames : stage < 4 \/ c[1] * 10 + c[2] > pos}
+CanGrow == stage = 5 /\ model.ctcs # <<>> /\ pos < CtcGrow /\ IsLogicalT(model.ctcs[Len(model.ctcs)].ast)
 KindEnabled(kd) ==
   CASE kd = "abs"   -> Later(1) # {}
     [] kd = "type"  -> Later(2) # {} /\ Types # {}
     [] kd = "fcard" -> Later(3) # {} /\ FCards # {}
     [] kd = "attr"  -> stage <= 4 /\ AttrCodes # {} /\ AttrVals # {}
-    [] kd = "ctc"   -> Len(model.ctcs) < MaxCtc /\ CtcReady
+    [] kd = "ctc"   -> (Len(model.ctcs) < MaxCtc /\ CtcReady) \/ CanGrow
     [] OTHER -> FALSE
 RandomStep ==
   LET kinds == {kd \in Axes : KindEnabled(kd)}
@@ -126,7 +137,13 @@ RandomStep ==
                [] kd = "type"  -> \E i \in {PickS(Later(2), 7)}, t \in {PickS(Types, 8)} : SetType(i, t)
                [] kd = "fcard" -> \E i \in {PickS(Later(3), 9)}, c \in {PickS(FCards, 10)} : SetFCard(i, c)
                [] kd = "attr"  -> \E c \in {PickS(AttrCodes, 11)}, v \in {PickS(AttrVals, 13)} : AddAttribute(c[1], c[2], v)
-               [] kd = "ctc"   -> \E t \in {PickS(TreesOver(Names(model), CtcBinOps, CtcDepth)
+               [] kd = "ctc"   -> IF CanGrow /\ (PickS(1..3, 15) <= 2 \/ ~(Len(model.ctcs) < MaxCtc /\ CtcReady))
+                                  THEN \E s \in {PickS(TreesOver(Names(model), CtcBinOps, 1), 16)},
+                                          o \in {PickS(CtcBinOps, 17)}, k \in {PickS(1..5, 18)} :
+                                         LET t == model.ctcs[Len(model.ctcs)].ast
+                                         IN  ReplaceConstraint(IF k <= 2 THEN Bin(o, t, s) ELSE IF k <= 4 THEN Bin(o, s, t)
+                                                               ELSE Un("NOT", t))
+                                  ELSE \E t \in {PickS(TreesOver(Names(model), CtcBinOps, CtcDepth)
                                             \cup (IF CtcArith THEN ArithTrees(Names(model)) ELSE {}), 14)} : AddConstraint(t)
 
 Next == (IF Walks = 0 THEN Step ELSE RandomStep) /\ UNCHANGED walk
